@@ -89,7 +89,12 @@ func (man *chunkManager) OnChunkConsumed(chunk base.LogChunk) {
 
 func (man *chunkManager) OnChunkLeftover(chunk base.LogChunk) {
 	man.logger.Debugf("save leftover id=%s len=%d", chunk.ID, len(chunk.Data))
-	man.operator.UnloadChunk(&chunk)
+	if !man.operator.UnloadChunk(&chunk) {
+		// couldn't be saved (space limit, I/O error or no directory): the chunk is lost and must be counted as such
+		man.logger.Warnf("failed to save leftover, drop chunk id=%s len=%d", chunk.ID, len(chunk.Data))
+		man.OnChunkDropped(chunk)
+		return
+	}
 	man.metrics.pendingChunks.Dec()
 	man.metrics.leftoverChunksTotal.Inc()
 }
